@@ -354,7 +354,7 @@ pub fn run_integrity(args: &Args) -> (u64, u64) {
         }
     }
     // random files of interesting lengths, random splits, sensitivity to every input
-    let lens: Vec<usize> = if thorough { vec![0, 1, 63, 64, 65, 119, 120, 4096, 100_000] } else { vec![0, 1, 63, 64, 65, 4096] };
+    let lens: Vec<usize> = if thorough { vec![0, 1, 55, 56, 63, 64, 65, 119, 120, 128, 4095, 4096, 4097, 100_000] } else { vec![0, 1, 63, 64, 65, 128, 4096] };
     for (k, n) in lens.iter().enumerate() {
         let mut data = vec![0u8; *n];
         rng.fill_bytes(&mut data);
@@ -395,7 +395,7 @@ pub fn run_integrity(args: &Args) -> (u64, u64) {
     // keys and salts with zero bytes at either end, all-zero and all-0xFF values (every function must hash all 32 / 16 bytes)
     let mut data = vec![0u8; 100];
     rng.fill_bytes(&mut data);
-    for k in 0..12usize {
+    for k in 0..13usize {
         let mut k2 = key;
         let mut s2 = salt;
         match k {
@@ -409,7 +409,8 @@ pub fn run_integrity(args: &Args) -> (u64, u64) {
             7 => s2[0] = 0,
             8 => s2 = [0u8; 16],
             9 => { s2 = [0u8; 16]; k2 = [0u8; 32]; }
-            10 => { k2[31] = 0x80; }
+            10 => { k2[31] = 0x80; s2[0] = 0x36; }
+            11 => { s2 = [0x5c; 16]; }
             _ => { k2[16] = 0; s2[8] = 0; }
         }
         let files = split_random(&mut rng, &data, 5);
@@ -530,7 +531,7 @@ pub fn run_matrix(args: &Args) -> (u64, u64) {
             }
         }
     }
-    let seeds: [u64; 6] = [0, 1, u64::MAX, 14574472801782155463, 0x8000_0000_0000_0000, 0xFFFF_FFFF];
+    let seeds: [u64; 8] = [0, 1, u64::MAX, 14574472801782155463, 0x8000_0000_0000_0000, 0xFFFF_FFFF, 0xABCD_EF01_0000_0000, 0x1_0000_0000];
     for (gi, (w, h)) in geoms.iter().enumerate() {
         if gi % 8 == 7 {
             tr.reset("matrix");
